@@ -300,6 +300,8 @@ async fn bridge_world() -> BridgeWorld {
     let src_conn = IceConn::new(a_rx, "127.0.0.1:9".parse().unwrap(), None);
     let src = RtpTransport::new(src_conn, false);
     let dst_sock = tokio::net::UdpSocket::bind("127.0.0.1:0").await.unwrap();
+    // tokio's try_send_to only works once the reactor has reported the socket writable
+    dst_sock.writable().await.unwrap();
     let (b, b_rx) = watch::channel(Some(IceSocketWrapper::Udp(Arc::new(dst_sock))));
     let dst_conn = IceConn::new(b_rx, peer.local_addr().unwrap(), None);
     let dst = Arc::new(RtpTransport::new(dst_conn, false));
@@ -415,12 +417,12 @@ fn run_bridge(cases: &[Value], out: &mut NdjsonOut, shard: (usize, usize)) {
             // output SSRC / payload type: stable per (source, rule); the value itself is the rule's (first packet)
             if g.header.ssrc != u32_of(&e["ssrc"]) {
                 divs += 1;
-                bad(e["rules"]["ssrc"].as_str().unwrap(), "ssrc", json!(u32_of(&e["ssrc"])), json!(g.header.ssrc));
+                bad("StableMap", "ssrc", json!(u32_of(&e["ssrc"])), json!(g.header.ssrc));
                 break;
             }
             if g.header.payload_type as u64 != e["pt"].as_u64().unwrap() {
                 divs += 1;
-                bad(e["rules"]["pt"].as_str().unwrap(), "pt", e["pt"].clone(), json!(g.header.payload_type));
+                bad("StableMap", "pt", e["pt"].clone(), json!(g.header.payload_type));
                 break;
             }
             if g.header.sequence_number != eseq {
@@ -430,7 +432,7 @@ fn run_bridge(cases: &[Value], out: &mut NdjsonOut, shard: (usize, usize)) {
                 break;
             }
             if g.header.timestamp != ets {
-                let rule = e["rules"]["ts"].as_str().unwrap();
+                let rule = if first { "EXT" } else { e["tsRule"].as_str().unwrap() };
                 if rule == "EXT" { case_drift = true; } else { divs += 1; }
                 bad(rule, "ts", json!(ets), json!(g.header.timestamp));
                 break;
@@ -464,7 +466,24 @@ fn main() {
         let (a, b) = s.split_once('/').expect("shard i/n");
         (a.parse().unwrap(), b.parse().unwrap())
     }).unwrap_or((0usize, 1usize));
-    let rows = read_ndjson(&args[2]);
+    // only this shard's lines are parsed (the others become Null and are skipped by index)
+    let rows: Vec<Value> = {
+        use std::io::BufRead;
+        let f = std::fs::File::open(&args[2]).unwrap_or_else(|e| panic!("open {}: {e}", args[2]));
+        std::io::BufReader::new(f)
+            .lines()
+            .map(|l| l.expect("read line"))
+            .filter(|l| !l.trim().is_empty())
+            .enumerate()
+            .map(|(i, l)| {
+                if i % shard.1 == shard.0 {
+                    serde_json::from_str(&l).unwrap_or_else(|e| panic!("{}:{}: bad json: {e}", args[2], i + 1))
+                } else {
+                    Value::Null
+                }
+            })
+            .collect()
+    };
     let mut out = NdjsonOut::create(&args[3]);
     match args[1].as_str() {
         "demux" => {
